@@ -1,5 +1,5 @@
 #!/usr/bin/env python3
-"""Entry point:  run.py setup | check <ID> [--tier quick|thorough] | replay <file> | all [--tier ..] | selftest"""
+"""Entry point:  run.py setup | check <ID> [--tier quick|thorough] | replay <file> | all [--tier ..] | selftest | crosscheck"""
 import os
 import sys
 import json
@@ -69,6 +69,8 @@ def main(argv):
         return replay(argv[2])
     if argv[1] == 'selftest':
         return os.system('python3 %s' % os.path.join(HERE, 'tools', 'selftest.py')) >> 8
+    if argv[1] == 'crosscheck':      # the executor against CPython on the constructor / editing / fromgeo paths
+        return os.system('python3-vt %s' % os.path.join(HERE, 'tools', 'crosscheck.py')) >> 8
     if argv[1] == 'all':
         rc = 0
         for i in range(1, 21):
